@@ -273,12 +273,6 @@ class _Canonical(ast.NodeTransformer):
     def visit_While(self, node):
         node = self.generic_visit(node)
         node.test = self._truth(node.test)
-        if node.orelse and all(isinstance(x, ast.Pass) for x in node.orelse):
-            node.orelse = []
-        if node.orelse and all(isinstance(x, ast.Pass) for x in node.body):
-            # `if c: pass` / `else: X`  ->  `if not c: X`
-            node.test = self.visit_UnaryOp(ast.copy_location(ast.UnaryOp(op=ast.Not(), operand=node.test), node.test)) if not (isinstance(node.test, ast.UnaryOp) and isinstance(node.test.op, ast.Not)) else node.test.operand
-            node.body, node.orelse = node.orelse, []
         return node
 
     def visit_IfExp(self, node):
@@ -294,6 +288,12 @@ class _Canonical(ast.NodeTransformer):
     def visit_If(self, node):
         node = self.generic_visit(node)
         node.test = self._truth(node.test)
+        if node.orelse and all(isinstance(x, ast.Pass) for x in node.orelse):
+            node.orelse = []
+        if node.orelse and all(isinstance(x, ast.Pass) for x in node.body):
+            # `if c: pass` / `else: X`  ->  `if not c: X`
+            node.test = self.visit_UnaryOp(ast.copy_location(ast.UnaryOp(op=ast.Not(), operand=node.test), node.test)) if not (isinstance(node.test, ast.UnaryOp) and isinstance(node.test.op, ast.Not)) else node.test.operand
+            node.body, node.orelse = node.orelse, []
         # `if not c: A else: B` -> `if c: B else: A` (an elif chain in the else part is left alone)
         if isinstance(node.test, ast.UnaryOp) and isinstance(node.test.op, ast.Not) and node.orelse \
                 and not (len(node.orelse) == 1 and isinstance(node.orelse[0], ast.If)):
